@@ -306,6 +306,36 @@ def r05_3b(ck, F):
         ck.inconclusive("check_local#try_recv-table", "no explicit match on TryRecvError; only the coarse clauses were checked")
 
 
+def r05_5(ck, F):
+    ck.rule("R05.5", "a forwarder relays the outcome of the onward connection: in the per-request task of chmux::forward the "
+            "incoming request is accepted (Request::accept_from) only on the Ok outcome of the outgoing connect, and on its Err "
+            "outcome the incoming request is rejected (Request::reject) — it is never accepted before the final endpoint "
+            "answered",
+            "a half travels over a forwarded port (>= 2 hops) and the final endpoint rejects / has no ports: the origin sees "
+            "the port opened and closed at once — a clean end-of-stream instead of a connect error", floor=2)
+    fam = [b for b in F.family("chmux::forward::forward") if b.kind == "coroutine"]
+    tasks = [b for b in fam if list(b.calls("chmux::listener::Request::accept_from"))]
+    if not tasks:
+        raise mir.AnchorMissing("per-request task of chmux::forward (a coroutine calling Request::accept_from)")
+    k = tasks[0]
+    acc = [bb for bb, t in k.calls("chmux::listener::Request::accept_from")]
+    rej = [bb for bb, t in k.calls("chmux::listener::Request::reject")]
+    conn = [a for a in k.awaits() if "client::Connect" in (a.get("fut_ty") or "") or "client::Connect" in (a.get("fut_fn") or "")]
+    if not conn:
+        raise mir.AnchorMissing("await of the outgoing Connect in the forward task")
+    a = conn[0]
+    edges = outcome_edges(k, None, lambda x: any(isinstance(w, tuple) and w and w[0] == "await" and w[2] == a["poll_bb"] for w in mir.walk(x)))
+    ok_t = [tb for sb, tb, m, e in edges if m == "Ok"]
+    err_t = [tb for sb, tb, m, e in edges if m == "Err"]
+    ok = bool(ok_t) and bool(acc) and all(k.find_path([0], [x], avoid=ok_t) is None for x in acc)
+    ck.expect(ok, "forward#accept-after-connect", "accept_from only after connect.await returned Ok",
+              "chmux::forward accepts the incoming port request before / regardless of the outcome of the outgoing connect: a "
+              "rejection by the final endpoint is not relayed", k.loc(acc[0]) if acc else k.loc(0))
+    ok = bool(err_t) and bool(rej) and all(k.find_path([tb], list(k.returns()), avoid=rej) is None for tb in err_t)
+    ck.expect(ok, "forward#reject-on-connect-error", "connect error -> req.reject(..)",
+              "chmux::forward does not reject the incoming request when the outgoing connect failed", k.loc(err_t[0]) if err_t else k.loc(0))
+
+
 def r05_4(ck, F):
     import cancel
     cancel.rule(ck, F, "R05.4", only=("rch::base::", "chmux::receiver::", "chmux::sender::"), floor=4)
@@ -320,6 +350,9 @@ def run(ck, F):
     ck.run_rule(c03.r03_2)
     ck.run_rule(c03.r03_8)
     ck.run_rule(r05_4)
+    ck.run_rule(r05_5)
     import c10
     ck.run_rule(c10.r10_7)     # every announced port gets a Request (whose drop answers it): a half is never left without any outcome
     ck.run_rule(c10.r10_6)
+    import c07
+    ck.run_rule(c07.r07_5)     # a dropped request is rejected by its watcher task, and that rejection cannot be lost
